@@ -235,7 +235,8 @@ func (d *Derived) writeInst(o *Out) {
 			dg = strconv.Itoa(g)
 		}
 		win := "-"
-		if len(s.Windows) > 0 {
+		// with the windows constraint disabled the factory sets no windows at all (no waiting either)
+		if len(s.Windows) > 0 && !c.disabled("start_time_windows") {
 			var ws []string
 			for _, w := range s.Windows {
 				ws = append(ws, fmt.Sprintf("%d:%d", w[0], w[1]))
